@@ -46,3 +46,65 @@ Proof. vm_compute. reflexivity. Qed.
 Example C17_wf_needed_undeclared :
   parse_db (print_db [SA "a" [MV "x"]]) = Some [SA "a" [App "x" []]].
 Proof. vm_compute. reflexivity. Qed.
+
+(** (2) every slice is self-contained.  Model: [MM17/Slice.v] (the slicer after the three fix: commits;
+    [syntax_deps], [include], [exclude] arbitrary).  Hypotheses forced by the proof:
+    - [consistent db]: no token is both a zero-argument constant and a declared variable (else the slice,
+      which declares all its variables up front, re-parses differently);
+    - [unique_labels db]: the dictionary of kept statements is keyed by label (needed for the order claim only). *)
+From Pi2 Require Import MM17.Slice MM17.SliceSpec MM17.SliceProofs.
+
+Theorem C17_slice_self_contained : forall db sd lemma s,
+  wf_db db = true -> consistent db = true -> unique_labels db ->
+  slice sguards_fixed db sd lemma = Some s ->
+  (declares_all s = true /\ labels_resolve s) /\ floating_order_preserved db s /\ parse_db (print_db s) = Some s.
+Proof. exact slice_self_contained. Qed.
+Print Assumptions C17_slice_self_contained.
+
+(** the same for every slice the generator yields, any include/exclude sets *)
+Theorem C17_slice_self_contained_all : forall db sd incl excl l s,
+  wf_db db = true -> consistent db = true -> unique_labels db ->
+  In (l, s) (fst (slice_database sguards_fixed db sd incl excl)) ->
+  (declares_all s = true /\ labels_resolve s) /\ floating_order_preserved db s /\ parse_db (print_db s) = Some s.
+Proof. exact slice_self_contained_all. Qed.
+Print Assumptions C17_slice_self_contained_all.
+
+(** non-vacuity: a database with a non-builtin typecode, a top-level $d after an assertion, a top-level
+    $e, a rule block and two lemmas; both slices exist *)
+Definition ex_slice_db : database :=
+  [ SC ["wff"; "|-"; "("; ")"; "->"];
+    SV ["p"; "q"];
+    SF "wp" "wff" "p"; SF "wq" "wff" "q";
+    SA "wi" [App "wff" []; App "->" [MV "p"; MV "q"]];
+    SD ["p"; "q"];
+    SB [ SE "mp.1" [App "|-" []; MV "p"]; SE "mp.2" [App "|-" []; App "->" [MV "p"; MV "q"]];
+         SA "mp" [App "|-" []; MV "q"] ];
+    SE "h" [App "|-" []; MV "p"];
+    SA "ax1" [App "|-" []; App "->" [MV "p"; MV "q"]];
+    SP "th1" [App "|-" []; MV "q"] (Some ["("; "ax1"; "mp"; ")"; "ABCABCDE"]);
+    SB [ SD ["p"; "q"]; SP "th2" [App "wff" []; App "->" [MV "p"; MV "p"]] (Some ["("; "wi"; ")"; "AAB"]) ] ].
+
+Example C17_slice_nonvacuous :
+  wf_db ex_slice_db = true /\ consistent ex_slice_db = true /\ unique_labels ex_slice_db /\
+  (exists s, slice sguards_fixed ex_slice_db [] "th1" = Some s) /\
+  (exists s, slice sguards_fixed ex_slice_db [] "th2" = Some s).
+Proof.
+  split; [vm_compute; reflexivity|]. split; [vm_compute; reflexivity|]. split.
+  - unfold unique_labels. vm_compute.
+    repeat (constructor; [simpl; intuition discriminate|]). constructor.
+  - split; eexists; vm_compute; reflexivity.
+Qed.
+
+(** the pinned slicer (before fix db29930) violated the statement: the typecode [wff] of the kept [$f]
+    statements is not declared in the slice (finding D17a) *)
+Theorem C17_slice_self_contained_refuted_pinned_typecode :
+  exists db sd lemma s, wf_db db = true /\ consistent db = true /\
+    slice sguards_pinned db sd lemma = Some s /\ declares_all s = false.
+Proof.
+  exists [ SC ["wff"; "|-"; "("; ")"; "->"]; SV ["p"; "q"]; SF "wp" "wff" "p"; SF "wq" "wff" "q";
+           SA "ax1" [App "|-" []; App "->" [MV "p"; App "->" [MV "q"; MV "p"]]];
+           SP "th1" [App "|-" []; App "->" [MV "p"; App "->" [MV "p"; MV "p"]]] (Some ["("; "ax1"; ")"; "AAB"]) ],
+         [], "th1".
+  eexists. split; [vm_compute; reflexivity|]. split; [vm_compute; reflexivity|].
+  split; vm_compute; reflexivity.
+Qed.
